@@ -652,8 +652,8 @@ impl DB {
             }
         }
 
-        drop(db_lock);
-
+        // The lock file is removed while the lock is still held: if the lock were released first,
+        // another opener could acquire it and then have its lock file removed from under it
         log::info!("Deleting database lock file.");
         if let Err(io_err) = fs.remove_file(&file_name_handler.get_lock_file_path()) {
             log::error!(
@@ -663,6 +663,8 @@ impl DB {
 
             return Err(RainDBError::Destruction(io_err.to_string()));
         }
+
+        drop(db_lock);
 
         if let Some(deletion_err) = maybe_deletion_err {
             return Err(RainDBError::Destruction(deletion_err.to_string()));
